@@ -3,6 +3,7 @@
   `step : Server → Op → Server × Resp`.
 -/
 import Emu.Bt.Admin
+import Emu.Basic.Assoc
 
 namespace Emu.Bt
 
@@ -58,13 +59,10 @@ deriving Inhabited
 
 def tablesInfix : Bytes := Bytes.ofString "/tables/"
 
-def Server.find (s : Server) (name : Bytes) : Option Table :=
-  match s.tables.find? (·.1 == name) with
-  | some (_, t) => some t
-  | none => none
+def Server.find (s : Server) (name : Bytes) : Option Table := aget s.tables name
 
 def Server.setTable (s : Server) (name : Bytes) (t : Table) : Server :=
-  { s with tables := s.tables.map fun e => if e.1 == name then (name, t) else e }
+  { s with tables := aset s.tables name t }
 
 /-- Run `k` on an existing table; `NotFound` otherwise. -/
 def Server.withTable (s : Server) (name : Bytes) (k : Table → Server × Resp) : Server × Resp :=
@@ -98,9 +96,9 @@ def step (s : Server) : Op → Server × Resp
     let name := parent ++ tablesInfix ++ id
     match s.find name with
     | some _ => (s, .err .alreadyExists)
-    | none => ({ s with tables := s.tables ++ [(name, ⟨fams, []⟩)] }, .schema fams)
+    | none => (s.setTable name ⟨fams, []⟩, .schema fams)
   | .delete name =>
-    s.withTable name fun _ => ({ s with tables := s.tables.filter (·.1 != name) }, .ok)
+    s.withTable name fun _ => ({ s with tables := adel s.tables name }, .ok)
   | .list parent =>
     (s, .names ((s.tables.map (·.1)).filter (Bytes.hasPrefix · (parent ++ tablesInfix))))
   | .get name => s.withTable name fun t => (s, .schema t.schema)
